@@ -1,4 +1,6 @@
+pub mod c01;
 pub mod c10;
+pub mod clean;
 pub mod tok;
 
 use crate::engine::{Ctx, Obs, Verdict};
@@ -11,6 +13,11 @@ pub fn run(ctx: &mut Ctx) -> bool {
         "C07" => tok::check(ctx, "C07"),
         "C08" => tok::check(ctx, "C08"),
         "C10" => c10::check(ctx),
+        "C01" => c01::check(ctx),
+        "C02" => clean::check(ctx, "C02"),
+        "C03" => clean::check(ctx, "C03"),
+        "C04" => clean::check(ctx, "C04"),
+        "C14" => clean::check(ctx, "C14"),
         _ => return false,
     }
     true
@@ -20,6 +27,8 @@ pub fn replay(property: &str, sub: &str, case: &Value, obs: &mut Obs) -> Result<
     match property {
         "C07" | "C08" => tok::replay(property, sub, case, obs),
         "C10" => c10::replay(sub, case, obs),
+        "C01" => c01::replay(sub, case, obs),
+        "C02" | "C03" | "C04" | "C14" => clean::replay(property, sub, case, obs),
         _ => Err(format!("unknown property {property}")),
     }
 }
